@@ -27,13 +27,15 @@ def sig_of(m, v, what):
 
 def run(chk):
     rng = random.Random(chk.seed)
-    chk.rule = ('every accepted input of: corpus programs / statements / expressions, 1-3 token mutants of them, token soup, exhaustive short token sequences in 19 syntactic contexts; '
+    chk.rule = ('every accepted input of: corpus programs / statements / expressions, control-header probes (every level-raising form as a header clause followed by `ok {} {}` / a composite literal), 1-3 token mutants of them, token soup, exhaustive short token sequences in 19 syntactic contexts; '
                 'the implementation tree is printed by goprint and re-parsed through the same entry point; oracle: accepted again and equal up to positions, comments and empty statements.  '
                 'non-trivial: accepted inputs; distinct by text.')
     base = [c for c in streams.snippet_cases() if c[0] in ('file', 'expr', 'stmt')]
     n = 3 if chk.tier == 'quick' else 12
     from orch import interact
     base = base + [('file', t_) for p_ in interact.programs() for t_ in [p_['text']] + p_['variants']]
+    from . import genprog
+    base = base + [('file', t_) for t_ in genprog.header_probes()]
     cases = streams.dedup(base + streams.mutants(rng, base, n, 3) + streams.soup(rng, 6000 * n, modes=('file', 'expr', 'stmt')) + [(m, s) for _, m, s in streams.contexts(chk.tier != 'quick')])
     a, b = run_both(chk, 'first-parse', cases, robust=True)
     acc = [((m, s), outcome(l)[1]) for (m, s), l in zip(cases, a) if outcome(l)[0] == 'ok']
